@@ -95,8 +95,8 @@ def backend_monitors(chk, hit, scenarios):
     """C05 / C01(3) evaluated directly on what the real key generators returned."""
     for sc in scenarios:
         honest = [p for p in sc["parties"] if p["honest"]]
-        tag = "%s n=%d t=%d deviation=%s by party %d victims=%s schedule=%s" % (
-            sc["pkg"], sc["n"], sc["t"], sc["deviation"], sc["deviant"], sc["victims"], sc.get("schedule", "random"))
+        tag = "%s n=%d t=%d participants=%s deviation=%s by party of rank %d victims(ranks)=%s schedule=%s" % (
+            sc["pkg"], sc["n"], sc["t"], sc.get("ids"), sc["deviation"], sc["deviant"], sc["victims"], sc.get("schedule", "random"))
         if sc["stuck"] or any(p["verdict"] == "running" for p in honest):
             hit("dkg_stuck", sc, "a KeyGen did not return after its context was cancelled: " + tag)
             continue
@@ -239,6 +239,15 @@ def run(pid, tier, seed):
         honest_verdicts=dict(collections.Counter(p["verdict"] + ("/cancelled" if p["cancelled"] else "")
                                                  for sc in bsc for p in sc["parties"] if p["honest"])),
         deliveries=sum(sc["deliveries"] for sc in bsc),
+        # participant identifier sets that are not 1..n (gaps, not starting at 1, boundary values): shares are evaluated at the
+        # RANK in the session order; signer subsets are verified through bls.Verifier (identifier -> rank)
+        participant_sets_not_1_to_n=dict(
+            backend=dict(collections.Counter(str(sc["ids"]) for sc in bsc if sc.get("ids") and sc["ids"] != list(range(1, sc["n"] + 1)))),
+            backend_signer_subsets_verified=sum(sc["sign_sets"] for sc in bsc
+                                                if sc.get("ids") and sc["ids"] != list(range(1, sc["n"] + 1)) and sc["sign_ok"]),
+            stack=dict(collections.Counter("%s %s" % (s_["mode"], s_["ids"]) for s_ in ssc
+                                           if s_.get("ids") and s_["ids"] != list(range(1, s_["n"] + 1)))),
+            stack_sessions_verified=sum(s_["verified"] for s_ in ssc if s_.get("ids") and s_["ids"] != list(range(1, s_["n"] + 1)))),
         stack=dict(collections.Counter("%s/%s/%s" % (s.get("mode"), s.get("fault", "none"), s.get("outcome")) for s in ssc)),
     )
     chk.cov["samples"] = [bsc[i] for i in (0, 7) if i < len(bsc)] + ssc[:1]
@@ -266,7 +275,8 @@ def stack_stage(chk, hit, tier, seed, only):
         return []
     ssc = vlib.read_jsonl(spath)
     for sc in ssc:
-        tag = "%s mode n=%d t=%d fault=%s byz=%d groupB=%s" % (sc["mode"], sc["n"], sc["t"], sc["fault"], sc["byz"], sc["group_b"])
+        tag = "%s mode n=%d t=%d participants=%s fault=%s byz=%d groupB=%s" % (
+            sc["mode"], sc["n"], sc["t"], sc.get("ids"), sc["fault"], sc["byz"], sc["group_b"])
         if sc["panics"] or "panic" in sc["keygen"]:
             hit("stack_panic", sc, "a party panicked in a full-stack run: " + tag)
         if sc["outcome"] == "split":
